@@ -100,6 +100,7 @@ class Tie:
         self._asan = None
         self.nfile = 0
         self.nviol = 0
+        self.keys_seen = set()
         self.hist = {"mfs": {}, "size": {}, "mode": {}, "reads": 0, "corruptions": 0, "archives": 0}
 
     # -- plumbing
@@ -147,6 +148,10 @@ class Tie:
         return out.split("\n")
 
     def report(self, replay, what, no_input=False, key=None):
+        if key is not None:
+            if key in self.keys_seen:      # one report per finding key
+                return
+            self.keys_seen.add(key)
         if self.nviol >= MAX_VIOL:
             return
         self.nviol += 1
@@ -531,9 +536,12 @@ class Tie:
                     e = n
                 else:
                     e = min(n, o + rng.choice([1, 2, 3, 17, 1000, 131072, 131073, 300000]))
+                if len(log) > 2000:
+                    e = min(e, o + 64)             # long tables: the list-based model pays O(frames) per frame crossed
                 reads.append(("r", o, e - o))
                 last_end = e
-            reads.append(("r", 0, n))
+            if len(log) <= 2000:
+                reads.append(("r", 0, n))
         # decompressFrame: every frame for short logs, sampled otherwise; with exact, larger and too small dst
         nf = len(log)
         idxs = list(range(nf)) if nf <= 12 else sorted(set([0, 1, nf - 2, nf - 1] + [rng.randrange(nf) for _ in range(8)]))
@@ -543,7 +551,10 @@ class Tie:
             if d > 0 and rng.random() < 0.5:
                 reads.append(("rf", i, d - 1))
         reads += [("rf", nf, 4), ("rf", nf + 1, 0), ("rf", M32 - 1, 1)]
-        # splice a few decompressFrame calls into the history too
+        if len(log) > 2000:
+            # whole-range and long reads on a long table: real code + direct oracle only (not replayed in the model)
+            s["nomodel_from"] = len(reads)
+            reads += [("r", 0, n), ("r", n // 3, n // 2), ("r", 1, n - 1)]
         return reads
 
     def o2f_positions(self, s):
@@ -590,9 +601,12 @@ class Tie:
                       "tableof", "loadfile %s" % s["apath"], "acc " + " ".join(str(i) for i in idx),
                       "o2f " + " ".join(str(p) for p in s["o2f"]), "rinit"]
             if s["model_reads"]:
+                nrd = 0
                 for ln in cl:
                     cmd, pos, d = kv(ln)
-                    if cmd in ("r", "rf") and "tr" in d:
+                    if cmd in ("r", "rf"):
+                        nrd += 1
+                    if cmd in ("r", "rf") and "tr" in d and nrd <= s.get("nomodel_from", 1 << 60):
                         orc = ";".join("%s:%s" % (t.split(":")[3], "1" if t.split(":")[5] == "1" else "0")
                                        for t in d["tr"].split(";") if t[0] in "kd")
                         mtext.append("%s %s %s %s" % (cmd, pos[0], pos[1], orc or "-"))
@@ -712,7 +726,7 @@ class Tie:
                     if d.get("tail") != "1":
                         raise Fail("wrote beyond the %d bytes it reported" % ln_)
                 # --- model lock-step
-                if s["model_reads"]:
+                if s["model_reads"] and j < s.get("nomodel_from", 1 << 60):
                     mcmd, mpos, md = kv(mrl[j])
                     if mpos[2] not in ("ok", "err"):
                         raise Fail("model result '%s' (%s) when driven with the decoder results the code observed: the code's sequence of decoder calls is not the model's" % (mpos[2], mrl[j][:200]))
@@ -872,7 +886,7 @@ class Tie:
         ctext += ["%s %d %d" % r for r in v["reads"]] + ["close"]
         return ctext
 
-    def run_corrupt_group(self, g, exe, timeout=25):
+    def run_corrupt_group(self, g, exe, timeout=10):
         """returns the variant on which the process died / hung (after reporting it), or None"""
         ctext, mtext = [], []
         for v in g:
